@@ -33,6 +33,13 @@ def creads(trace):
     return sorted({(e["callee"], tuple(e["off"]), tuple(e["len"])) for e in trace if e.get("k") == "cread" and e.get("reg") == "setting"})
 
 
+def cinputs(trace):
+    """everything the digest primitives are handed, from any region, where the span is exact: (callee, region, offset,
+    length, digest of the abstract content).  Equal sets in both runs = the digests are computed from the same bytes."""
+    return {(e["callee"], e["reg"], e["off"][0], e["len"][0], e["content"]) for e in trace
+            if e.get("k") == "cread" and e.get("content") is not None and e.get("reg") != "setting"}
+
+
 def run(chk, tier):
     chk.explanation = __doc__
     chk.rule("X-REACCEPT", "crypt_rn accepts its own result as a setting: a succeeding path exists and no refusal appears that the first run did not have")
@@ -109,7 +116,16 @@ def run(chk, tier):
             d = [x for x in c2 if x not in c1] or [x for x in c1 if x not in c2]
             chk.fail("X-SAME-INPUT", "%s|len%d|cread" % (method, len(H)), "%s: with H as the setting the digest primitives read other bytes of the setting than with the original setting: %s (first run: %s)" % (method, d[:2], c1[:3]), "lib/", where)
         else:
-            chk.ok("X-SAME-INPUT", rid, sample={"method": method, "digest_reads_of_setting": c1[:3], "offsets": r2})
+            # exact spans of any other region (the result buffer that sha1crypt primes its HMAC with, scratch copies ...): same
+            # callee, place, length and abstract content in both runs
+            i1, i2 = cinputs(mt["first_trace"]), cinputs(c.get("trace", []))
+            only2 = sorted(x for x in i2 if x not in i1)
+            only1 = sorted(x for x in i1 if x not in i2)
+            if only1 or only2:
+                chk.fail("X-SAME-INPUT", "%s|len%d|content" % (method, len(H)), "%s: with H as the setting a digest primitive is handed different bytes than with the original setting: %s in the rehash vs %s in the first run (callee, region, offset, length, content digest)" % (
+                    method, [x[:4] for x in only2[:2]], [x[:4] for x in only1[:2]]), "lib/", where)
+            else:
+                chk.ok("X-SAME-INPUT", rid, sample={"method": method, "digest_reads_of_setting": c1[:3], "offsets": r2, "other_exact_inputs": len(i1)})
         # hash portion untouched
         # the delimiter after the setting part and one look-ahead character (sunmd5 tests for a second '$') are compared, not used
         over = [(a, b) for a, b in r2 if b > start + 2]
